@@ -22,6 +22,7 @@ type Behaviour struct {
 	H       int    // height of the lie / checkpoint index / message count before the disconnect / fork depth
 	N       int    // lighterFork: branch length
 	Variant string // liarHeaders: pow|unlinked ; noServices: cf|witness ; liarCFHeaders: inconsistent|consistent ; liarCFCheckpt: only|consistent
+	SkewMin int    // minutes this node's clock is ahead (timestamp of its version message)
 	Tx      string // reaction to a transaction inv: "" (ignore) | accept | reject-nogetdata | reject | confirm-after-release | reject-with
 	// reject-with: ask for the transaction, then reject it with this code and reason (%TX% = its id)
 	RejCode   wire.RejectCode
@@ -56,6 +57,9 @@ func (b Behaviour) String() string {
 	if b.GD != "" {
 		s += " gd=" + b.GD
 	}
+	if b.SkewMin != 0 {
+		s += fmt.Sprintf(" skew=%d", b.SkewMin)
+	}
 	return s
 }
 
@@ -87,6 +91,7 @@ type Peer struct {
 
 	// counters (atomic)
 	GotGetHeaders, GotGetCFHeaders, GotGetCFCheckpt, GotGetCFilters, GotGetData, GotInvTx, GotTx int32
+	flooding                                                                                     int32
 	Handshakes                                                                                   int32
 	sentTotal                                                                                    int32
 	didDisconnect                                                                                int32
@@ -188,6 +193,11 @@ func (p *Peer) Serve(conn net.Conn) {
 	ver.Services = p.services()
 	ver.ProtocolVersion = int32(pver)
 	ver.UserAgent = fmt.Sprintf("/netsim:%d/", p.Idx)
+	if p.B.SkewMin != 0 {
+		// this node's clock is off: the client takes the timestamp of the version
+		// message as a sample for its network-adjusted time
+		ver.Timestamp = time.Unix(time.Now().Add(time.Duration(p.B.SkewMin)*time.Minute).Unix(), 0)
+	}
 	if _, err := wire.WriteMessageWithEncodingN(conn, ver, pver, net, wire.WitnessEncoding); err != nil {
 		return
 	}
@@ -411,6 +421,9 @@ func (s *session) handle(m wire.Message) {
 		s.send(wire.NewMsgPong(msg.Nonce))
 
 	case *wire.MsgGetHeaders:
+		if atomic.LoadInt32(&p.flooding) != 0 {
+			return // it does not answer the requests its junk announcements provoke
+		}
 		p.mu.Lock()
 		p.lastLocator = nil
 		for _, h := range msg.BlockLocatorHashes {
@@ -721,6 +734,38 @@ func (s *session) garbage() {
 }
 
 var _ = io.EOF
+
+// Flood queues n block announcements for hashes nobody knows, one inv message
+// each, on the live connection (a misbehaving or broken peer; also what a
+// hundred peers announcing at once look like to the block handler's queue).
+func (p *Peer) Flood(n int) {
+	p.mu.Lock()
+	s := p.cur
+	p.mu.Unlock()
+	if s == nil {
+		return
+	}
+	atomic.StoreInt32(&p.flooding, 1)
+	for i := 0; i < n; i++ {
+		h := chainhash.DoubleHashH([]byte(fmt.Sprintf("flood %d %d", p.Idx, i)))
+		inv := wire.NewMsgInv()
+		inv.AddInvVect(wire.NewInvVect(wire.InvTypeBlock, &h))
+		s.send(inv)
+	}
+}
+
+// Backlog is the number of messages still waiting to be written to the client.
+func (p *Peer) Backlog() int {
+	p.mu.Lock()
+	s := p.cur
+	p.mu.Unlock()
+	if s == nil {
+		return 0
+	}
+	s.mu.Lock()
+	defer s.mu.Unlock()
+	return len(s.q)
+}
 
 // Tip is the tip of the chain this peer serves right now.
 func (p *Peer) Tip() *Blk { return p.tip() }
